@@ -6,7 +6,8 @@ def run(ctx):
     q = ctx.quick()
     base = {"B": '{"b1"}', "T": '{"f", "g"}', "CB": '{"c1", "c2"}', "RS": "<- RS_12", "A": "{0, 1}", "Ops": "<- StubOps"}
     life.mc(ctx, dict(base, MaxOps=4 if q else 5))
-    behs = life.gen(ctx, dict(base, CB='{"c1"}', T='{"f"}'), 3 if q else 4, "all histories of the stub alphabet, 1 target")
+    # (two callbacks: closures of ONE function literal that differ only in what they capture)
+    behs = life.gen(ctx, dict(base, T='{"f"}'), 3 if q else 4, "all histories of the stub alphabet, 1 target, 2 callbacks")
     behs += life.gen(ctx, dict(base, CB='{"c1"}'), 2 if q else 3, "all histories of the stub alphabet, 2 targets")
     behs += life.sim(ctx, dict(base, Ops="<- HeldOps", RS="<- RS_3"), 250 if q else 4000, 10, "random histories, all ops, kept handles")
     life.replay(ctx, "life", behs)
